@@ -67,6 +67,17 @@ add("C33", "lang_mc", "exploration",
     "Every content of <= N segments over a signing-related alphabet containing the signing token 1-3 times is signed and verified; then every single-character replace/delete/insert at every position outside the hex signature must break verification.",
     "Trusted: md5 via the crate's own dependency; contents with bare NEWTOKEN or pre-signed markers are not enumerated.", "bounded exhaustive input and edit enumeration", "2/C33")
 
+comp_note = ("Trusted: one universe schema (objects, interface, union, enum, input objects, custom scalar, Mutation + @exposeField) and menu-based program enumeration (mc/comp_mc/src/progx.rs): every combination of menu selections up to k nodes, nesting <= 2, in program templates (single field + entrypoint, child field reused under two parents, cyclic pairs). Programs are compiled by the real compiler from a real project directory in /dev/shm, each shard in its own process.")
+add("C08", "comp_mc", "exploration",
+    "Every program of four families (general, arguments, abstract types, cycles: every pair of selection sets for two client fields that may select themselves and each other) is compiled by the real batch compiler in a crash-isolated worker process; a panic, abort, stack overflow or a failure without diagnostics is a violation, attributed to the exact program.",
+    comp_note, "bounded exhaustive program enumeration on the real compiler with process-level crash isolation", "2/C08")
+add("C09", "comp_mc", "exploration",
+    "For every accepted program of the families, every query_text / refetch query_text artifact is evaluated to the string the runtime reads (swc, cooked string) and validated against the schema: parses (relay graphql-syntax), fields exist, leaf/composite shape, arguments defined/required/coercible, variables declared/used/compatible (also inside object values), fragment conditions applicable, response names mergeable.",
+    comp_note + " Validator mc/comp_mc/src/gql.rs is the trusted base (no independent GraphQL implementation in the sandbox).", "bounded exhaustive program enumeration + reference validator", "2/C09")
+add("C13", "comp_mc", "exploration",
+    "For every accepted program of the families, every .ts artifact is parsed as a TypeScript module by swc_ecma_parser, every .json by serde_json, and every relative import is resolved against the generated artifact set.",
+    comp_note + " swc is the syntax oracle (no tsc).", "bounded exhaustive program enumeration + TypeScript parser as oracle", "2/C13")
+
 props = [json.loads(l)["id"] for l in open(os.path.join(ROOT, "properties.jsonl"))]
 claimed = {c["property_id"] for c in checks}
 hook_commits = subprocess.run(["git", "-C", "/repo", "log", "--format=%h %s", "cd9f374..HEAD"], capture_output=True, text=True).stdout.splitlines()
@@ -85,6 +96,7 @@ m = {
         {"name": "pico_mc", "path": "/verif/mc/pico_mc", "serves_properties": ["C01", "C02", "C03", "C04"], "kind_free_text": "explicit-state history explorer (seqx) driving the real pico crate against a reference evaluator + ideal incremental engine; pairwise key-space check for #[memo]"},
         {"name": "fs_mc", "path": "/verif/mc/fs_mc", "serves_properties": ["C18", "C19"], "kind_free_text": "explicit-state exploration of artifact-directory sessions and exhaustive fault-point enumeration on the real planner/applier over a real directory in /dev/shm"},
         {"name": "lang_mc", "path": "/verif/mc/lang_mc", "serves_properties": ["C07", "C31", "C32", "C33"], "kind_free_text": "bounded-exhaustive input explorers (grammar-directed token enumeration, text/span enumeration) on the real parser, excerpt renderer, position resolver and signer"},
+        {"name": "comp_mc", "path": "/verif/mc/comp_mc", "serves_properties": ["C08", "C09", "C13"], "kind_free_text": "progx: bounded-exhaustive program enumeration compiled by the real compiler (crash-isolated workers) with per-property oracles (swc TypeScript parser/evaluator, GraphQL validator)"},
         {"name": "intern_mc", "path": "/verif/mc/intern_mc", "serves_properties": ["C05", "C06"], "kind_free_text": "loom models over the real intern crate (cfg shim) + bounded-exhaustive sequential sweep"},
     ],
     "checks": checks,
